@@ -103,7 +103,7 @@ func findReplayers(P *Program) []replayerImpl {
 			ri.replay = P.Prog.MethodValue(s)
 		}
 		if ri.put != nil {
-			eachInstr(ri.put, func(in ssa.Instruction) {
+			eachInstrDeep(ri.put, func(in ssa.Instruction) {
 				if isQueueCall(in, "enqueue") != nil {
 					ri.stores = true
 				}
@@ -163,7 +163,7 @@ func putShape(c *Ctx, only string) {
 		}
 		msgP, topicsP := fn.Params[1], fn.Params[2]
 		var enq, ens *ssa.Call
-		eachInstr(fn, func(in ssa.Instruction) {
+		eachInstrDeep(fn, func(in ssa.Instruction) {
 			if call := isQueueCall(in, "enqueue"); call != nil {
 				enq = call
 			}
@@ -456,7 +456,7 @@ func r08_2(c *Ctx) {
 		if !inSSEPackage(f) {
 			continue
 		}
-		eachInstr(f, func(in ssa.Instruction) {
+		eachInstrDeep(f, func(in ssa.Instruction) {
 			st, ok := in.(*ssa.Store)
 			if !ok {
 				return
@@ -522,7 +522,7 @@ type replayParts struct {
 
 func findReplayParts(P *Program, fn *ssa.Function) *replayParts {
 	rp := &replayParts{fn: fn}
-	eachInstr(fn, func(in ssa.Instruction) {
+	eachInstrDeep(fn, func(in ssa.Instruction) {
 		if call, ok := in.(*ssa.Call); ok {
 			if callee := call.Call.StaticCallee(); callee != nil && (callee.Name() == "findIDInQueue" || (callee.Origin() != nil && callee.Origin().Name() == "findIDInQueue")) {
 				rp.find = call
@@ -668,7 +668,7 @@ func replayShape(c *Ctx, only string) {
 		c.check(negOK, name+":negative-index", P.ipos(rp.find), "a negative start index returns nil before any Send/Flush", "a negative start index (nothing to replay) does not return nil before sending/flushing")
 		// Send only in the callback, guarded by topicsIntersect(subscription.Topics, m.topics)
 		nSend := 0
-		eachInstr(fn, func(in ssa.Instruction) {
+		eachInstrDeep(fn, func(in ssa.Instruction) {
 			if _, ok := isInvoke(in, "sse", "MessageWriter", "Send"); ok {
 				nSend++
 			}
@@ -677,7 +677,7 @@ func replayShape(c *Ctx, only string) {
 		cb := rp.cb
 		var send ssa.CallInstruction
 		ns := 0
-		eachInstr(cb, func(in ssa.Instruction) {
+		eachInstrDeep(cb, func(in ssa.Instruction) {
 			if s, ok := isInvoke(in, "sse", "MessageWriter", "Send"); ok {
 				send = s
 				ns++
@@ -717,7 +717,7 @@ func replayShape(c *Ctx, only string) {
 		// Send error: stored in the shared err cell, callback returns false on error, true otherwise
 		sv := send.Value()
 		stored := false
-		eachInstr(cb, func(in ssa.Instruction) {
+		eachInstrDeep(cb, func(in ssa.Instruction) {
 			if st, ok := in.(*ssa.Store); ok && st.Val == ssa.Value(sv) && rp.errCell != nil && cellRoot(st.Addr) == ssa.Value(rp.errCell) {
 				stored = true
 			}
@@ -795,7 +795,7 @@ func r08_4(c *Ctx) {
 			continue
 		}
 		yield := fn.Params[0]
-		eachInstr(fn, func(in ssa.Instruction) {
+		eachInstrDeep(fn, func(in ssa.Instruction) {
 			call, ok := in.(*ssa.Call)
 			if !ok || call.Call.Value != ssa.Value(yield) {
 				return
@@ -874,7 +874,7 @@ func r09_1(c *Ctx) {
 		return ok && cellHoldsOnly(rootAddr(base), elem)
 	}
 	n := 0
-	eachInstr(cb, func(in ssa.Instruction) {
+	eachInstrDeep(cb, func(in ssa.Instruction) {
 		s, ok := isInvoke(in, "sse", "MessageWriter", "Send")
 		if !ok {
 			return
@@ -906,7 +906,7 @@ func r09_2(c *Ctx) {
 	name := fnLabel(fn)
 	var nows []*ssa.Call
 	var enq *ssa.Call
-	eachInstr(fn, func(in ssa.Instruction) {
+	eachInstrDeep(fn, func(in ssa.Instruction) {
 		if call, ok := in.(*ssa.Call); ok && call.Call.StaticCallee() == nil && !call.Call.IsInvoke() {
 			if _, ok := isFieldLoad(call.Call.Value, "ValidReplayer", "Now"); ok {
 				nows = append(nows, call)
@@ -1001,7 +1001,7 @@ func r09_3(c *Ctx) {
 				nowP = p
 			}
 		}
-		eachInstr(fn, func(in ssa.Instruction) {
+		eachInstrDeep(fn, func(in ssa.Instruction) {
 			dq := isQueueCall(in, "dequeue")
 			if dq == nil {
 				return
@@ -1077,7 +1077,7 @@ func r09_4(c *Ctx) {
 	}
 	name := fnLabel(fn)
 	var enq, rs *ssa.Call
-	eachInstr(fn, func(in ssa.Instruction) {
+	eachInstrDeep(fn, func(in ssa.Instruction) {
 		if q := isQueueCall(in, "enqueue"); q != nil {
 			enq = q
 		}
@@ -1206,7 +1206,7 @@ func r18_1(c *Ctx) {
 		if !inSSEPackage(fn) {
 			continue
 		}
-		eachInstr(fn, func(in ssa.Instruction) {
+		eachInstrDeep(fn, func(in ssa.Instruction) {
 			st, ok := in.(*ssa.Store)
 			if !ok {
 				return
@@ -1228,7 +1228,7 @@ func r18_1(c *Ctx) {
 	}
 	// append to queue.buf anywhere?
 	for _, fn := range P.Funcs {
-		eachInstr(fn, func(in ssa.Instruction) {
+		eachInstrDeep(fn, func(in ssa.Instruction) {
 			if call, ok := isBuiltin(in, "append"); ok {
 				if _, ok := isFieldLoad(call.Common().Args[0], "queue", "buf"); ok {
 					c.bad(fnLabel(fn)+":append(queue.buf)", P.ipos(in), "queue.buf is appended to: the buffer can grow")
@@ -1317,7 +1317,7 @@ func r18_2(c *Ctx) {
 	name := fnLabel(fn)
 	var zero *ssa.Store
 	var moves []*ssa.Store
-	eachInstr(fn, func(in ssa.Instruction) {
+	eachInstrDeep(fn, func(in ssa.Instruction) {
 		st, ok := in.(*ssa.Store)
 		if !ok {
 			return
@@ -1392,7 +1392,7 @@ func r18_3(c *Ctx) {
 	}
 	name := fnLabel(fn)
 	var mk *ssa.MakeSlice
-	eachInstr(fn, func(in ssa.Instruction) {
+	eachInstrDeep(fn, func(in ssa.Instruction) {
 		if m, ok := in.(*ssa.MakeSlice); ok {
 			mk = m
 		}
@@ -1407,7 +1407,7 @@ func r18_3(c *Ctx) {
 	c.check(fresh, name+":fresh-buffer", P.pos(fn.Pos()), "q.buf is assigned a slice made in this call with the requested size", "resize does not install a freshly made buffer of the requested size")
 	// the old slice is only read: loads of q.buf flow only to len, slicing and copy sources
 	keeps := false
-	eachInstr(fn, func(in ssa.Instruction) {
+	eachInstrDeep(fn, func(in ssa.Instruction) {
 		st, ok := in.(*ssa.Store)
 		if !ok {
 			return
@@ -1429,7 +1429,7 @@ func r18_3(c *Ctx) {
 	c.check(!keeps, name+":old-buffer-dropped", P.pos(fn.Pos()), "the old buffer is stored nowhere", "resize stores (a slice of) the old buffer somewhere: collected messages stay reachable")
 	// head/tail re-based
 	var headZero, tailCount bool
-	eachInstr(fn, func(in ssa.Instruction) {
+	eachInstrDeep(fn, func(in ssa.Instruction) {
 		st, ok := in.(*ssa.Store)
 		if !ok {
 			return
@@ -1455,7 +1455,7 @@ func r18_4(c *Ctx) {
 		return
 	}
 	var dq *ssa.Call
-	eachInstr(fn, func(in ssa.Instruction) {
+	eachInstrDeep(fn, func(in ssa.Instruction) {
 		if q := isQueueCall(in, "dequeue"); q != nil {
 			dq = q
 		}
@@ -1542,7 +1542,7 @@ func r19_1(c *Ctx) {
 			continue
 		}
 		n++
-		eachInstr(fn, func(in ssa.Instruction) {
+		eachInstrDeep(fn, func(in ssa.Instruction) {
 			var addr ssa.Value
 			switch x := in.(type) {
 			case *ssa.Store:
@@ -1637,7 +1637,7 @@ func r19_2(c *Ctx) {
 	name := fnLabel(fn)
 	// the chunks field of the result
 	var chunksStore *ssa.Store
-	eachInstr(fn, func(in ssa.Instruction) {
+	eachInstrDeep(fn, func(in ssa.Instruction) {
 		if st, ok := in.(*ssa.Store); ok {
 			if b, ok := isFieldSel(st.Addr, "Message", "chunks"); ok {
 				if _, isAlloc := b.(*ssa.Alloc); isAlloc {
@@ -1695,7 +1695,7 @@ func r19_2(c *Ctx) {
 	// no in-place edit of a chunks element anywhere in the module
 	n := 0
 	for _, f := range P.Funcs {
-		eachInstr(f, func(in ssa.Instruction) {
+		eachInstrDeep(f, func(in ssa.Instruction) {
 			st, ok := in.(*ssa.Store)
 			if !ok {
 				return
@@ -1767,7 +1767,7 @@ func r19_3(c *Ctx) {
 		return
 	}
 	n := 0
-	eachInstr(fn, func(in ssa.Instruction) {
+	eachInstrDeep(fn, func(in ssa.Instruction) {
 		st, ok := in.(*ssa.Store)
 		if !ok {
 			return
@@ -1815,7 +1815,7 @@ func r18_5(c *Ctx) {
 		return
 	}
 	var mk *ssa.MakeSlice
-	eachInstr(fn, func(in ssa.Instruction) {
+	eachInstrDeep(fn, func(in ssa.Instruction) {
 		if m, ok := in.(*ssa.MakeSlice); ok {
 			mk = m
 		}
@@ -1828,7 +1828,7 @@ func r18_5(c *Ctx) {
 		srcBuf  bool
 	}
 	byBlock := map[*ssa.BasicBlock][]cp{}
-	eachInstr(fn, func(in ssa.Instruction) {
+	eachInstrDeep(fn, func(in ssa.Instruction) {
 		call, ok := in.(*ssa.Call)
 		if !ok {
 			return
@@ -1985,7 +1985,7 @@ func lookupProtocol(fn *ssa.Function, depth int) (map[*ssa.Return]*protoVerdict,
 				// instantiation wrappers forward to the generic body
 				target := callee
 				if callee.Synthetic != "" {
-					eachInstr(callee, func(in ssa.Instruction) {
+					eachInstrDeep(callee, func(in ssa.Instruction) {
 						if c2, ok := in.(*ssa.Call); ok {
 							if g := c2.Call.StaticCallee(); g != nil && g.Blocks != nil {
 								target = g
@@ -2171,7 +2171,7 @@ func r18_6(c *Ctx) {
 		return
 	}
 	var now *ssa.Call
-	eachInstr(fn, func(in ssa.Instruction) {
+	eachInstrDeep(fn, func(in ssa.Instruction) {
 		if call, ok := in.(*ssa.Call); ok && call.Call.StaticCallee() == nil && !call.Call.IsInvoke() {
 			if _, ok := isFieldLoad(call.Call.Value, "ValidReplayer", "Now"); ok {
 				now = call
@@ -2310,7 +2310,7 @@ func r18_7(c *Ctx) {
 	fullFacts := []fact{factBool(isFullCmp, true), factBool(isNotFullCmp, false)}
 	name := fnLabel(fn) + ":head-moves"
 	have := false
-	eachInstr(fn, func(in ssa.Instruction) {
+	eachInstrDeep(fn, func(in ssa.Instruction) {
 		if v, ok := in.(ssa.Value); ok && (isFullCmp(v) || isNotFullCmp(v)) {
 			have = true
 		}
@@ -2622,7 +2622,7 @@ func r08_6(c *Ctx) {
 	for _, f := range append(append([]*ssa.Function{}, lookupFns...), queueFns...) {
 		for _, g := range regionFuncs(f) {
 			k := 0
-			eachInstr(g, func(in ssa.Instruction) {
+			eachInstrDeep(g, func(in ssa.Instruction) {
 				sub, ok := in.(*ssa.BinOp)
 				if !ok || sub.Op != token.SUB {
 					return
@@ -2658,6 +2658,14 @@ func r08_6(c *Ctx) {
 					if !edgeDominates(ifi.Block(), e, sub.Block()) {
 						continue
 					}
+					// x > A-1 is x >= A
+					if op == token.GTR || op == token.LEQ {
+						if bb, ok := bound.(*ssa.BinOp); ok && bb.Op == token.SUB {
+							if k1, isK := constInt(bb.Y); isK && k1 == 1 {
+								bound = bb.X
+							}
+						}
+					}
 					k++
 					nm := fnLabel(g) + ":reduce-by-bound#" + itoa(k)
 					c.check(exprShape(bound, 0) == exprShape(sub.Y, 0), nm, P.ipos(sub), "the value is reduced by the bound it was compared with",
@@ -2689,7 +2697,7 @@ func r09_8(c *Ctx) {
 		if !inSSEPackage(fn) || fn.Synthetic != "" {
 			continue
 		}
-		eachInstr(fn, func(in ssa.Instruction) {
+		eachInstrDeep(fn, func(in ssa.Instruction) {
 			call, ok := in.(*ssa.Call)
 			if !ok || isQueueCall(call, "resize") == nil || len(call.Call.Args) != 2 {
 				return
